@@ -248,11 +248,24 @@ func (eq *externalBaseQueue) Worker() Worker {
 }
 
 func (eq *externalBaseQueue) Purge() {
-	prevValues := eq.q.Values()
-	eq.q.Purge()
+	// persistent and distributed queues hold serialized jobs: there is
+	// no handle to release, the adapter just drops its entries
+	if _, ok := eq.q.(IAcknowledgeable); ok {
+		eq.q.Purge()
+		return
+	}
 
-	// close all pending channels to avoid routine leaks
-	for _, val := range prevValues {
+	// Take the pending jobs out one by one and close exactly those. Closing a
+	// snapshot of Values() after Purge() silently dropped a job that was
+	// enqueued between the two calls: never run, never closed, waiters stuck.
+	for n := eq.q.Len(); n > 0; n-- {
+		val, ok := eq.q.Dequeue()
+
+		if !ok {
+			break
+		}
+
+		// close the job to release its waiters and avoid routine leaks
 		if j, ok := val.(io.Closer); ok {
 			j.Close()
 		}
